@@ -224,6 +224,8 @@ def train(tier: str, prop: str) -> list[dict]:
         c("PPO", "sim_box", 1, 10, "clock", [35]),
         c("PPO", "gym_peer", 1, 6, "rec1", [24]),      # Gymnasium peer with hidden RNG state behind GymToLeraxEnv
         c("DQN", "gym_peer", 1, 3, "rec1", [15], starts=4),
+        c("PPO", "sim_dict", 2, 4, "rec1", [17], p_fresh=0.5),    # Dict observations with many string keys, often re-run in a fresh interpreter
+        c("DQN", "sim_dict", 1, 3, "list", [13], starts=3, p_fresh=0.5),
     ]
     if prop == "C10":
         base = [b for b in base if b["observer"] in ("rec1", "rec2", "list", "console", "tb", "clock", "video")]
@@ -278,6 +280,14 @@ def rollout(tier: str, prop: str) -> list[dict]:
         dict(env="Pendulum", L=300, kwargs={"tsit5": True}, stack=[["ClipObservation"], ["TimeLimit", 40], ["ClipReward", -1.0, 1.0]]),
         dict(env="Acrobot", L=300, kwargs={"tsit5": True}),
     ]
+    # every pass-through wrapper kind OUTSIDE a wrapper that changes the observation space: the declared space of the
+    # stack must be the rescaled one, not the base environment's
+    outer = [
+        dict(env="MountainCar", L=600, stack=[["RescaleObservation", -1.0, 1.0], ["TimeLimit", 300]]),
+        dict(env="Pendulum", L=300, stack=[["RescaleObservation", -5.0, 5.0], ["ClipAction"], ["TimeLimit", 50], ["ClipReward", -2.0, 0.0]]),
+        dict(env="ContinuousMountainCar", L=600, stack=[["RescaleObservation", 0.0, 10.0], ["RescaleAction", -2.0, 2.0], ["Identity"], ["TimeLimit", 300]]),
+        dict(env="Acrobot", L=300, stack=[["RescaleObservation", 2.0, 3.0], ["TimeLimit", 100], ["FlattenObservation"], ["Identity"]]),
+    ]
     mj_quick = [
         dict(env="InvertedPendulum", L=150, stack=[["TimeLimit", 40]]),
         dict(env="Reacher", L=100, stack=[["TimeLimit", 25], ["ClipAction"]]),
@@ -304,9 +314,7 @@ def rollout(tier: str, prop: str) -> list[dict]:
     if prop == "C01":
         return classic[:5] + mj_quick[:1] if tier == "quick" else classic + mj_quick + mj_rest
     # slowest compiles first (G1 ~2 min, MuJoCo 30-60 s) so that they overlap with everything else
-    if tier == "quick":
-        return g1 + mj_rest + mj_quick + classic
-    return g1 + mj_rest + mj_quick + classic
+    return g1 + mj_rest + mj_quick + classic + outer
 
 
 def g1(tier: str, prop: str) -> list[dict]:
